@@ -994,6 +994,14 @@ def replay_m(path):
     d = json.load(open(path))
     if d.get('kind') == 'eval_impl':
         return replay_eval_impl(path)
+    if d.get('kind') == 'safesrc':
+        err = build_tool('render')
+        inp = '\n'.join(json.dumps(q) for q, _ in d['requests']) + '\n'
+        p = subprocess.run([os.path.join(BUILD, 'native', 'debug', 'render')], input=inp, stdout=subprocess.PIPE, stderr=subprocess.PIPE, text=True, timeout=120)
+        outs = [json.loads(l) for l in p.stdout.split('\n') if l.strip()]
+        bad = [(q['src'], o.get('ok', o), w) for (q, w), o in zip(d['requests'], outs) if o.get('ok') != w]
+        print(json.dumps(bad, indent=1))
+        return bool(bad)
     if d.get('kind') == 'serdeflag':
         err = build_tool('serdeflag')
         p = subprocess.run([os.path.join(BUILD, 'native', 'debug', 'serdeflag')], stdout=subprocess.PIPE, stderr=subprocess.PIPE, text=True, timeout=60)
@@ -1726,6 +1734,164 @@ def check_raw_kinds(mir, kinds):
 
 
 # ---------------------------------------------------------------------------------------------
+# captures (C02): what a {% set %} block / macro / call block / recursive loop / super() captured has been escaped
+# under the state's auto-escape mode already, so it must come back marked safe exactly when that mode is not None.
+#  (a) Output::end_capture with the mode's discriminant SYMBOLIC: from_safe_string iff mode != None
+#  (b) every end_capture call whose result is used passes a copy of the state's auto_escape field
+# ---------------------------------------------------------------------------------------------
+def auto_escape_variants(repo):
+    src = open(os.path.join(repo, 'minijinja', 'src', 'utils.rs'), encoding='utf-8').read()
+    m = re.search(r'pub enum AutoEscape \{(.*?)\n\}', src, re.S)
+    if not m:
+        raise MirError('enum AutoEscape not found')
+    body = re.sub(r'\s*///[^\n]*', '', re.sub(r'#\[[^\]]*\]', '', m.group(1)))
+    return re.findall(r'^\s{4}([A-Z]\w*)', body, re.M)
+
+
+def check_capture_marks(mir, variants):
+    text = function_text(mir, r'^fn output::<impl [^>]*>::end_capture\(')
+    if text is None:
+        return 'unknown', dict(kind='Output::end_capture not found in the MIR'), 0.0, {}
+    fn = parse_function(text)
+    d = z3.Int('mode')
+    outcomes = []          # (path condition, 'safe' | 'plain')
+    problems = []
+
+    def walk(bid, env, cond, depth):
+        if depth > 40:
+            problems.append('path too long')
+            return
+        blk = fn['blocks'][bid]
+        env = dict(env)
+        for st in blk['stmts']:
+            m = re.match(r'(_\d+) = discriminant\(_2\);', st)
+            if m:
+                env[m.group(1)] = d
+                continue
+            m = re.match(r'(_\d+) = const (true|false);', st)
+            if m:
+                env[m.group(1)] = z3.IntVal(1 if m.group(2) == 'true' else 0)
+                continue
+            m = re.match(r'(_\d+) = (?:Eq|Ne)\((?:move|copy) (_\d+), const (\d+)_\w+\);', st)
+            if m and m.group(2) in env:
+                eq = env[m.group(2)] == int(m.group(3))
+                env[m.group(1)] = z3.If(eq if st.split(' = ')[1].startswith('Eq') else z3.Not(eq), z3.IntVal(1), z3.IntVal(0))
+                continue
+            m = re.match(r'(_\d+) = Not\((?:move|copy) (_\d+)\);', st)
+            if m and m.group(2) in env:
+                env[m.group(1)] = 1 - env[m.group(2)]
+                continue
+            m = re.match(r'(_\d+) = (?:move|copy) (_\d+);', st)
+            if m and m.group(2) in env:
+                env[m.group(1)] = env[m.group(2)]
+        term = blk['term']
+        _, callee = call_of(term)
+        if callee and re.match(r'value::Value::from_safe_string\(', callee):
+            outcomes.append((cond, 'safe'))
+            return
+        if callee and re.match(r'<value::Value as From<(?:std::string::)?String>>::from\(', callee):
+            outcomes.append((cond, 'plain'))
+            return
+        m = re.match(r'switchInt\((?:move|copy) (_\d+)\) -> \[(.*)\];', term)
+        if m:
+            if m.group(1) not in env:
+                # a switch on something other than the mode (the captured Option): follow every arm
+                for _, tgt in successors(term):
+                    if fn['blocks'][tgt]['term'] != 'unreachable;':
+                        walk(tgt, env, cond, depth + 1)
+                return
+            v = env[m.group(1)]
+            seen = []
+            for part in m.group(2).split(', '):
+                k, tgt = part.split(': ')
+                if k == 'otherwise':
+                    c2 = z3.And(*[v != x for x in seen]) if seen else z3.BoolVal(True)
+                else:
+                    c2 = v == int(k)
+                    seen.append(int(k))
+                if fn['blocks'][tgt]['term'] != 'unreachable;':
+                    walk(tgt, env, z3.And(cond, c2), depth + 1)
+            return
+        for _, tgt in successors(term):
+            if not fn['blocks'][tgt]['cleanup']:
+                walk(tgt, env, cond, depth + 1)
+    walk('bb0', {}, z3.BoolVal(True), 0)
+    stats = dict(paths=len(outcomes), variants=variants)
+    if problems or not outcomes:
+        return 'unknown', dict(kind='cannot read end_capture: %s' % (problems or 'no constructor call reached')), 0.0, stats
+    s_ = z3.Solver()
+    s_.set('timeout', 30000)
+    s_.add(d >= 0, d < len(variants))
+    none = variants.index('None')
+    s_.add(z3.Or(*[z3.And(c, (d != none) if kind == 'plain' else (d == none)) for c, kind in outcomes]))
+    t0 = time.time()
+    r = s_.check()
+    dt = time.time() - t0
+    if r == z3.unsat:
+        # and every mode reaches some constructor
+        s2 = z3.Solver()
+        s2.add(d >= 0, d < len(variants), z3.Not(z3.Or(*[c for c, _ in outcomes])))
+        if s2.check() != z3.unsat:
+            return 'unknown', dict(kind='a mode reaches no constructor'), dt, stats
+        return 'sat', None, dt, stats
+    if r == z3.sat:
+        mv = s_.model()[d].as_long()
+        return 'unsat', dict(kind='under AutoEscape::%s the captured text comes back %s' % (variants[mv], 'NOT marked safe (it will be escaped a second time)' if mv != none else 'marked safe although nothing was escaped'), mode=variants[mv]), dt, stats
+    return str(r), None, dt, stats
+
+
+def check_capture_mode_argument(mir):
+    """every end_capture call whose result is used gets `state.auto_escape`"""
+    sites = []
+    s_ = z3.Solver()
+    s_.set('timeout', 30000)
+    n = 0
+    conflict = None
+    for m in re.finditer(r'^fn (\S[^\n]*?) \{\n', mir, re.M):
+        end = mir.find('\n}\n', m.end())
+        body = mir[m.start():end]
+        if 'end_capture(' not in body or re.match(r'fn output::', m.group(0)):
+            continue
+        fn = parse_function(body)
+        name = re.match(r'fn ([^(]*)\(', m.group(0)).group(1)
+        for bid, blk in fn['blocks'].items():
+            dst, callee = call_of(blk['term'])
+            mm = callee and re.match(r'output::Output::<[^>]*>::end_capture\((?:move|copy) _\d+, (?:move|copy) (_\d+)\)', callee)
+            if not mm:
+                continue
+            n += 1
+            arg = mm.group(1)
+            origin = None
+            for st in blk['stmts']:
+                x = re.match(re.escape(arg) + r' = (.*);$', st)
+                if x:
+                    origin = x.group(1)
+            from_state = bool(origin and re.match(r'copy \(\(\*_\d+\)\.\d+: utils::AutoEscape\)$', origin))
+            # is the result used?  (anything other than a drop mentions it later)
+            uses = [st for b2 in fn['blocks'].values() for st in b2['stmts'] + [b2['term']]
+                    if re.search(r'\b%s\b' % re.escape(dst), st) and not re.match(r'drop\(%s\)' % re.escape(dst), st)
+                    and not st.startswith('%s = ' % dst) and not re.match(r'Storage(Live|Dead)\(', st)]
+            used = bool(uses)
+            u, f = z3.Bool('used_%d' % n), z3.Bool('state_mode_%d' % n)
+            s_.add(u == used, f == from_state)
+            s_.add(z3.Implies(u, f))
+            sites.append(dict(function=name[:80], block=bid, mode_argument=origin, result_used=used))
+            if used and not from_state and conflict is None:
+                conflict = 'in %s the captured value is produced with the mode `%s`, not the state\'s auto-escape mode' % (name[:60], origin)
+    if not sites:
+        return 'unknown', dict(kind='no end_capture call found'), 0.0, {}
+    t0 = time.time()
+    r = s_.check()
+    dt = time.time() - t0
+    stats = dict(sites=sites)
+    if r == z3.sat:
+        return 'sat', None, dt, stats
+    if r == z3.unsat:
+        return 'unsat', dict(kind=conflict), dt, stats
+    return str(r), None, dt, stats
+
+
+# ---------------------------------------------------------------------------------------------
 # eval_impl (C02): the print instruction hands its value to write_escaped / the formatter on every path
 # ---------------------------------------------------------------------------------------------
 def run_emit(prop, tier, seed):
@@ -1767,6 +1933,419 @@ def run_emit(prop, tier, seed):
         ev['problems'].append('engine M: native print scenario %s misbehaves (%s) although the Emit arm always goes through write_escaped / the formatter' % (failing[0]['scenario'], failing[0]['detail'][:200]))
     log('[%s] engine M (eval_impl Emit arm): %s; %d native scenarios, %d misbehaving' % (prop, ' '.join('%s=%s' % (r['op'], r['verdict']) for r in results), len(scen), len(failing)))
     ev['coverage'] = dict(queries=len(results), results=results, native_scenarios=len(scen), native_scenarios_failing=len(failing), function='Executor::eval_impl', check='emit_escapes')
+    ev['wall_s'] = round(time.time() - t0, 1)
+    return ev
+
+
+# ---------------------------------------------------------------------------------------------
+# filters (C02): what a filter hands to Value::from_safe_string contains no text of an argument that was taken
+# with as_str() (unescaped) unless that argument is known to be safe on the path.  Least-fixpoint taint over the
+# function's locals (T) and a must-fact "is_safe(param) returned true" per block (K), both left to the solver.
+# ---------------------------------------------------------------------------------------------
+SANITISERS = r'core::str::<impl str>::len\(|String::with_capacity\(|StringInput::<[^>]*>::format\(|StringInput::<[^>]*>::is_safe\(|value::Value::is_safe\(|value::Value::kind\(|state::State::<[^>]*>::auto_escape\('
+RAW_SOURCES = r'StringInput::<[^>]*>::as_str\(|value::Value::as_str\(|value::Value::to_str\(|<value::Value as ToString>::to_string\('
+
+
+def check_safe_string_sources(fn):
+    blocks = {b: blk for b, blk in fn['blocks'].items() if not blk['cleanup']}
+    adj, preds = cfg(fn)
+    refs = {}                      # _a = &_p / &mut _p / copy _p (a reference parameter)  -> _p
+    for blk in blocks.values():
+        for st in blk['stmts']:
+            m = re.match(r'(_\d+) = &(?:mut )?(?:\(\*)?(_\d+)\)?;', st)
+            if m:
+                refs[m.group(1)] = m.group(2)
+
+    def param_of(local):
+        seen = set()
+        while local in refs and local not in seen:
+            seen.add(local)
+            local = refs[local]
+        return local
+    # which bool local is the answer of is_safe(param)?
+    answer = {}
+    for blk in blocks.values():
+        dst, callee = call_of(blk['term'])
+        m = callee and re.match(r'(?:StringInput::<[^>]*>|value::Value)::is_safe\((?:move|copy) (_\d+)\)', callee)
+        if m and dst:
+            answer[dst] = param_of(m.group(1))
+    changed = True
+    while changed:
+        changed = False
+        for blk in blocks.values():
+            for st in blk['stmts']:
+                m = re.match(r'(_\d+) = (?:move|copy) (_\d+);', st)
+                if m and m.group(2) in answer and m.group(1) not in answer:
+                    answer[m.group(1)] = answer[m.group(2)]
+                    changed = True
+                m = re.match(r'(_\d+) = \((.*)\);$', st)          # tuple of answers: (move _a, move _b)
+                if m:
+                    for i, part in enumerate(m.group(2).split(', ')):
+                        x = re.match(r'(?:move|copy) (_\d+)$', part)
+                        key = '(%s.%d: bool)' % (m.group(1), i)
+                        if x and x.group(1) in answer and key not in answer:
+                            answer[key] = answer[x.group(1)]
+                            changed = True
+    # raw sources and the parameter each one reads
+    sources = []
+    for b, blk in blocks.items():
+        dst, callee = call_of(blk['term'])
+        if callee and dst and re.search(RAW_SOURCES, callee):
+            args = re.findall(r'(?:move|copy) (_\d+)', callee[callee.find('('):])
+            sources.append((b, re.search(r'_\d+', dst).group(0), param_of(args[0]) if args else '?'))
+    origins = sorted(set(p for _, _, p in sources))
+    params = sorted(set(answer.values()))
+    s_ = z3.Solver()
+    s_.set('timeout', 30000)
+    K = {(p, b): z3.Bool('K_%s_%s' % (p, b)) for p in params for b in blocks}
+    T = {}
+
+    def t(o, local):
+        if (o, local) not in T:
+            T[(o, local)] = z3.Bool('T%s_from%s' % (local, o))
+        return T[(o, local)]
+    for p in params:
+        s_.add(z3.Not(K[(p, 'bb0')]))
+    for b, blk in blocks.items():
+        sw = re.match(r'switchInt\((?:move|copy) (_\d+|\(_\d+\.\d+: bool\))\) -> \[(.*)\];', blk['term'])
+        for label, tgt in adj[b]:
+            if tgt not in blocks:
+                continue
+            for p in params:
+                sets = False
+                if sw and sw.group(1) in answer and answer[sw.group(1)] == p:
+                    tg = dict(x.split(': ') for x in sw.group(2).split(', '))
+                    true_t = tg.get('1', tg.get('otherwise'))
+                    if tgt == true_t and tg.get('0') != tgt:
+                        sets = True
+                if not sets:
+                    s_.add(z3.Implies(K[(p, tgt)], K[(p, b)]))
+    sinks = []
+    for b, blk in blocks.items():
+        for st in blk['stmts']:
+            m = re.match(r'(.+?) = (.*);$', st)
+            if not m or st.startswith('Storage'):
+                continue
+            lhs = re.search(r'_\d+', m.group(1))
+            if not lhs:
+                continue
+            for o in origins:
+                for l in set(re.findall(r'_\d+', m.group(2))):
+                    s_.add(z3.Implies(t(o, l), t(o, lhs.group(0))))
+                mm = re.match(r'(_\d+) = &mut (_\d+)', st)
+                if mm:
+                    s_.add(t(o, mm.group(1)) == t(o, mm.group(2)))
+        dst, callee = call_of(blk['term'])
+        if not callee or not dst:
+            continue
+        args = re.findall(r'(?:move|copy) (_\d+)', callee[callee.find('('):]) if '(' in callee else []
+        if re.match(r'value::Value::from_safe_string\(', callee):
+            sinks.append((b, args[0] if args else None))
+            continue
+        dl = re.search(r'_\d+', dst).group(0)
+        if re.search(RAW_SOURCES, callee):
+            p = param_of(args[0]) if args else '?'
+            if p in params:
+                s_.add(z3.Implies(z3.Not(K[(p, b)]), t(p, dl)))
+            else:
+                s_.add(t(p, dl))
+            continue
+        if re.search(SANITISERS, callee):
+            continue
+        flowing = args
+        if re.match(r'std::str::<impl str>::replace::<', callee) and len(args) == 3:
+            flowing = [args[0], args[2]]           # the pattern is matched against, it does not reach the result
+        for o in origins:
+            for a in flowing:
+                s_.add(z3.Implies(t(o, a), t(o, dl)))
+                for a2 in args:
+                    if a2 != a and a2 in refs:           # out-parameters: anything passed may end up behind a reference argument
+                        s_.add(z3.Implies(t(o, a), t(o, refs[a2])))
+    for b, a in sinks:
+        if a is None:
+            return 'unknown', dict(kind='cannot read the argument of from_safe_string'), 0.0, {}
+        for o in origins:
+            # text of parameter o may only arrive here if o is known to be safe at this point
+            s_.add(z3.Or(z3.Not(t(o, a)), K[(o, b)]) if (o, b) in K else z3.Not(t(o, a)))
+    stats = dict(blocks=len(blocks), safe_string_sinks=len(sinks), raw_sources=len(sources), params_tested_for_safety=len(params))
+    if not sinks:
+        return 'unknown', dict(kind='no from_safe_string call'), 0.0, stats
+    t0 = time.time()
+    r = s_.check()
+    dt = time.time() - t0
+    if r == z3.sat:
+        return 'sat', None, dt, stats
+    if r == z3.unsat:
+        return 'unsat', dict(kind='text taken with as_str() from an argument that is not known to be safe reaches Value::from_safe_string'), dt, stats
+    return str(r), None, dt, stats
+
+
+# ---------------------------------------------------------------------------------------------
+# |format with a SAFE format string (C02): the per-argument closure keeps an argument as it is (so that it is
+# interpolated unescaped) exactly when the argument is safe or is a bool/number; everything else goes through
+# filters::escape.  The argument's safe flag and kind discriminant are SYMBOLIC.
+# ---------------------------------------------------------------------------------------------
+def promoted_variant(mir, name, enum_variants):
+    m = re.search(r'^const ' + re.escape(name) + r': &[^=]*= \{(.*?)^\}', mir, re.M | re.S)
+    if not m:
+        return None
+    v = re.search(r'_1 = [\w:]*::(\w+);', m.group(1))
+    if v and v.group(1) in enum_variants:
+        return enum_variants.index(v.group(1))
+    return None
+
+
+def check_format_argument_policy(mir, kinds):
+    hdr = None
+    for m in re.finditer(r'^fn (filters::builtins::format::\{closure#\d+\})\(', mir, re.M):
+        text = function_text(mir, '^fn ' + re.escape(m.group(1)) + r'\(')
+        if text and 'filters::escape(' in text:
+            hdr, body = m.group(1), text
+    if hdr is None:
+        return 'unknown', dict(kind='the per-argument closure of |format was not found'), 0.0, {}
+    fn = parse_function(body)
+    safe, k = z3.Int('arg_is_safe'), z3.Int('arg_kind')
+    outcomes, problems = [], []
+
+    def walk(bid, env, cond, depth):
+        if depth > 60:
+            problems.append('path too long')
+            return
+        blk = fn['blocks'][bid]
+        env = dict(env)
+        for st in blk['stmts']:
+            m = re.match(r'(_\d+) = discriminant\((_\d+)\);', st)
+            if m and m.group(2) in env:
+                env[m.group(1)] = env[m.group(2)]
+                continue
+            m = re.match(r'(_\d+) = const (true|false);', st)
+            if m:
+                env[m.group(1)] = z3.IntVal(1 if m.group(2) == 'true' else 0)
+                continue
+            m = re.match(r'(_\d+) = const (\S+::promoted\[\d+\]);', st)
+            if m:
+                pv = promoted_variant(mir, m.group(2), kinds)
+                if pv is not None:
+                    env[m.group(1)] = z3.IntVal(pv)
+                continue
+            m = re.match(r'(_\d+) = value::ValueKind::(\w+);', st)
+            if m and m.group(2) in kinds:
+                env[m.group(1)] = z3.IntVal(kinds.index(m.group(2)))
+                continue
+            m = re.match(r'(_\d+) = (Eq|Ne)\((?:move|copy) (_\d+), (?:const (\d+)_\w+|(?:move|copy) (_\d+))\);', st)
+            if m and m.group(3) in env and (m.group(4) or m.group(5) in env):
+                rhs = int(m.group(4)) if m.group(4) else env[m.group(5)]
+                eq = env[m.group(3)] == rhs
+                env[m.group(1)] = z3.If(eq if m.group(2) == 'Eq' else z3.Not(eq), z3.IntVal(1), z3.IntVal(0))
+                continue
+            m = re.match(r'(_\d+) = Not\((?:move|copy) (_\d+)\);', st)
+            if m and m.group(2) in env:
+                env[m.group(1)] = 1 - env[m.group(2)]
+                continue
+            m = re.match(r'(_\d+) = &(_\d+);', st) or re.match(r'(_\d+) = (?:move|copy) (_\d+);', st)
+            if m and m.group(2) in env:
+                env[m.group(1)] = env[m.group(2)]
+                continue
+            if re.match(r'_\d+ = Option::<value::Value>::None;', st):
+                outcomes.append((cond, 'keep'))
+                return
+        term = blk['term']
+        dst, callee = call_of(term)
+        if callee:
+            nxt = [t_ for lab, t_ in successors(term) if not fn['blocks'][t_]['cleanup']]
+            if re.match(r'filters::escape\(', callee):
+                outcomes.append((cond, 'escape'))
+                return
+            if re.match(r'error::Error::new', callee):
+                outcomes.append((cond, 'error'))
+                return
+            if re.match(r'value::Value::is_safe\(', callee):
+                env[dst] = safe
+            elif re.match(r'value::Value::kind\(', callee):
+                env[dst] = k
+            else:
+                m = re.match(r'<value::ValueKind as PartialEq>::(eq|ne)\((?:move|copy) (_\d+), (?:move|copy) (_\d+)\)', callee)
+                if m and m.group(2) in env and m.group(3) in env:
+                    eq = env[m.group(2)] == env[m.group(3)]
+                    env[dst] = z3.If(eq if m.group(1) == 'eq' else z3.Not(eq), z3.IntVal(1), z3.IntVal(0))
+                elif re.match(r'<formatting::FormatConversion as PartialEq>::eq\(', callee):
+                    # the conversion is not the subject: follow the `not a character conversion` side only
+                    env[dst] = z3.IntVal(0)
+            for t_ in nxt[:1]:
+                walk(t_, env, cond, depth + 1)
+            return
+        m = re.match(r'switchInt\((?:move|copy) (_\d+)\) -> \[(.*)\];', term)
+        if m:
+            if m.group(1) not in env:
+                problems.append('a branch on something that is neither the safe flag nor the kind (%s in %s)' % (m.group(1), bid))
+                return
+            v = env[m.group(1)]
+            seen = []
+            for part in m.group(2).split(', '):
+                kk, tgt = part.split(': ')
+                if kk == 'otherwise':
+                    c2 = z3.And(*[v != x for x in seen]) if seen else z3.BoolVal(True)
+                else:
+                    c2 = v == int(kk)
+                    seen.append(int(kk))
+                if fn['blocks'][tgt]['term'] != 'unreachable;':
+                    walk(tgt, env, z3.And(cond, c2), depth + 1)
+            return
+        for _, tgt in successors(term):
+            if not fn['blocks'][tgt]['cleanup']:
+                walk(tgt, env, cond, depth + 1)
+    walk('bb0', {}, z3.BoolVal(True), 0)
+    stats = dict(paths=len(outcomes), closure=hdr)
+    if problems or not outcomes:
+        return 'unknown', dict(kind='cannot read the closure: %s' % (problems[:1] or 'no outcome reached')), 0.0, stats
+    s_ = z3.Solver()
+    s_.set('timeout', 30000)
+    s_.add(safe >= 0, safe <= 1, k >= 0, k < len(kinds))
+    typed = [kinds.index(x) for x in ('Bool', 'Number') if x in kinds]
+    spec_keep = z3.Or(safe == 1, *[k == x for x in typed])
+    s_.add(z3.Or(*[z3.And(c, z3.Not(spec_keep) if o == 'keep' else (spec_keep if o == 'escape' else z3.BoolVal(False))) for c, o in outcomes]))
+    t0 = time.time()
+    r = s_.check()
+    dt = time.time() - t0
+    if r == z3.unsat:
+        return 'sat', None, dt, stats
+    if r == z3.sat:
+        md = s_.model()
+        kv, sv = md.eval(k, model_completion=True).as_long(), md.eval(safe, model_completion=True).as_long()
+        return 'unsat', dict(kind='an argument of kind %s (safe=%s) is %s' % (kinds[kv], bool(sv), 'interpolated WITHOUT escaping into the safe result' if not (sv or kv in typed) else 'escaped although it needs none'), value_kind=kinds[kv]), dt, stats
+    return str(r), None, dt, stats
+
+
+def html_escape(text):
+    return text.replace('&', '&amp;').replace('<', '&lt;').replace('>', '&gt;').replace('"', '&quot;').replace("'", '&#x27;').replace('/', '&#x2f;')
+
+
+def safe_source_requests():
+    """(filter, request, expected output) under HTML auto-escaping; expectations are written from the property:
+    text of an unsafe operand arrives escaped exactly once, text of a safe operand arrives as it is"""
+    out = []
+    v, f, t = '<a>.', '.', '<t>'
+    for vs in (0, 1):
+        for fs in (0, 1):
+            for ts in (0, 1):
+                src = '{{ %s|replace(%s, %s) }}' % ('v|safe' if vs else 'v', 'f|safe' if fs else 'f', 't|safe' if ts else 't')
+                want = (v if vs else html_escape(v)).replace(f, t if ts else html_escape(t))
+                out.append(('replace', dict(src=src, name='p.html', ctx=dict(v=v, f=f, t=t)), want))
+    for vs in (0, 1):
+        out.append(('reverse', dict(src='{{ %s|reverse }}' % ('v|safe' if vs else 'v'), name='p.html', ctx=dict(v='<a>')), '>a<' if vs else html_escape('>a<')))
+        out.append(('escape', dict(src='{{ %s|escape }}' % ('v|safe' if vs else 'v'), name='p.html', ctx=dict(v='<a>')), '<a>' if vs else html_escape('<a>')))
+        for as_ in (0, 1):
+            src = '{{ %s|format(%s) }}' % ('v|safe' if vs else 'v', 'a|safe' if as_ else 'a')
+            if vs:
+                want = '<b>%s</b>' % ('<i>' if as_ else html_escape('<i>'))
+            else:
+                want = html_escape('<b><i></b>')
+            out.append(('format', dict(src=src, name='p.html', ctx=dict(v='<b>%s</b>', a='<i>')), want))
+    # a safe format string with arguments that are neither strings nor numbers: their rendering is escaped
+    out.append(('format', dict(src='{{ v|safe|format(a) }}', name='p.html', ctx=dict(v='<b>%s</b>', a=['<i>'])), '<b>%s</b>' % html_escape("['<i>']")))
+    out.append(('format', dict(src='{{ v|safe|format(a) }}', name='p.html', ctx=dict(v='<b>%s</b>', a={'k': '<i>'})), '<b>%s</b>' % html_escape("{'k': '<i>'}")))
+    out.append(('format', dict(src='{{ v|safe|format(a, b) }}', name='p.html', ctx=dict(v='<b>%s %d</b>', a=True, b=7)), '<b>True 7</b>'))
+    return out
+
+
+def run_safe_sources(prop, tier, seed):
+    t0 = time.time()
+    ev = dict(engine='M', violations=[], known_hits=[], problems=[], coverage={})
+    try:
+        mir = dump_mir(REPO, os.path.join(BUILD, 'mir'))
+    except MirError as e:
+        ev['problems'].append('engine M: %s' % e)
+        return ev
+    results = []
+    for m in re.finditer(r'^fn (filters::\S*?)\(', mir, re.M):
+        text = function_text(mir, '^fn ' + re.escape(m.group(1)) + r'\(')
+        if text is None or 'from_safe_string(' not in text:
+            continue
+        verdict, info, dt, stats = check_safe_string_sources(parse_function(text))
+        results.append(dict(function=m.group(1), filter=m.group(1).split('::')[-1] if '{closure' not in m.group(1) else m.group(1).split('::')[-2],
+                            verdict=verdict, z3_s=round(dt, 3), conflict=(info or {}).get('kind'), **stats))
+    try:
+        fv, fi, fdt, fstats = check_format_argument_policy(mir, value_kinds(REPO))
+        results.append(dict(function='filters::builtins::format::{closure}', filter='format', op='format_argument_policy', verdict=fv, z3_s=round(fdt, 3),
+                            conflict=(fi or {}).get('kind'), raw_sources=1, **fstats))
+    except MirError as e:
+        ev['problems'].append('engine M: %s' % e)
+    decided = [r for r in results if r.get('raw_sources')]
+    if not decided:
+        ev['problems'].append('engine M: no filter that builds a safe string from argument text was found in the MIR dump')
+        return ev
+    err = build_tool('render')
+    if err:
+        ev['problems'].append('engine M: render tool did not build')
+        return ev
+    reqs = safe_source_requests()
+    inp = '\n'.join(json.dumps(q) for _, q, _ in reqs) + '\n'
+    p = subprocess.run([os.path.join(BUILD, 'native', 'debug', 'render')], input=inp, stdout=subprocess.PIPE, stderr=subprocess.PIPE, text=True, timeout=120)
+    outs = [json.loads(l) for l in p.stdout.split('\n') if l.strip()]
+    bad = {}
+    for (f, q, want), o in zip(reqs, outs):
+        if o.get('ok') != want:
+            bad.setdefault(f, []).append('%s with %s renders %r, expected %r' % (q['src'], json.dumps(q['ctx']), o.get('ok', o), want))
+    for r in decided:
+        if r['verdict'] == 'sat':
+            continue
+        if r['verdict'] != 'unsat':
+            ev['problems'].append('engine M: %s: %s %s' % (r['function'], r['verdict'], r.get('conflict') or ''))
+            continue
+        if r['filter'] in bad:
+            rp = os.path.join(nativelib.replay_dir(), '%s-M-safesrc-%s.json' % (prop, r['filter']))
+            json.dump(dict(engine='M', kind='safesrc', property=prop, mir_finding=r, requests=[[q, w] for f, q, w in reqs if f == r['filter']],
+                           how='bin/check %s --replay %s' % (prop, rp)), open(rp, 'w'), indent=1)
+            ev['violations'].append(dict(replay=rp, failed=[dict(desc='%s: %s; natively: %s' % (r['function'], r['conflict'], bad[r['filter']][0][:260]),
+                                                                 loc='minijinja/src/filters.rs %s (MIR)' % r['filter'])]))
+        else:
+            ev['problems'].append('engine M: %s: %s, but every native render of that filter is as specified' % (r['function'], r['conflict']))
+    for f, msgs in bad.items():
+        if all(r['verdict'] == 'sat' for r in decided if r['filter'] == f):
+            ev['problems'].append('engine M: filter %s renders unsafe text unescaped or escapes twice natively (%s) although no raw argument text reaches from_safe_string' % (f, msgs[0][:240]))
+    log('[%s] engine M (safe-string sources): %s; native: %d renders, %d filters misbehaving' % (
+        prop, ' '.join('%s=%s' % (r['filter'], r['verdict']) for r in decided), len(outs), len(bad)))
+    ev['coverage'] = dict(queries=len(results), results=results, native_scenarios=len(outs), native_scenarios_failing=len(bad), check='safe_string_sources')
+    ev['wall_s'] = round(time.time() - t0, 1)
+    return ev
+
+
+def run_captures(prop, tier, seed):
+    t0 = time.time()
+    ev = dict(engine='M', violations=[], known_hits=[], problems=[], coverage={})
+    try:
+        mir = dump_mir(REPO, os.path.join(BUILD, 'mir'))
+        v1, i1, d1, s1 = check_capture_marks(mir, auto_escape_variants(REPO))
+        v2, i2, d2, s2 = check_capture_mode_argument(mir)
+    except MirError as e:
+        ev['problems'].append('engine M: %s' % e)
+        return ev
+    results = [dict(op='end_capture_marks', function='Output::end_capture', verdict=v1, conflict=(i1 or {}).get('kind'), z3_s=round(d1, 3), **s1),
+               dict(op='end_capture_mode_argument', function='every caller of Output::end_capture', verdict=v2, conflict=(i2 or {}).get('kind'), z3_s=round(d2, 3), **s2)]
+    err = build_tool('vmexits')
+    if err:
+        ev['problems'].append('engine M: native scenario tool did not build: ' + err[-300:])
+        return ev
+    scen = [s for s in run_vmexits() if s['check'] == 'capture_mode']
+    failing = [s for s in scen if not s['ok']]
+    for r in results:
+        if r['verdict'] == 'sat':
+            continue
+        if r['verdict'] != 'unsat':
+            ev['problems'].append('engine M: captures: %s %s' % (r['verdict'], r.get('conflict') or ''))
+            continue
+        if failing:
+            rp = os.path.join(nativelib.replay_dir(), '%s-M-capture.json' % prop)
+            json.dump(dict(engine='M', kind='eval_impl', check='capture_mode', property=prop, mir_finding=r, scenarios=failing,
+                           how='bin/check %s --replay %s' % (prop, rp)), open(rp, 'w'), indent=1)
+            ev['violations'].append(dict(replay=rp, failed=[dict(desc='captured output: %s; native scenario %s: %s' % (r['conflict'], failing[0]['scenario'], failing[0]['detail'][:220]),
+                                                                 loc='minijinja/src/output.rs end_capture / vm/mod.rs (MIR)')]))
+        else:
+            ev['problems'].append('engine M: captures: %s, but no native capture scenario misbehaves' % r['conflict'])
+    if failing and all(r['verdict'] == 'sat' for r in results):
+        ev['problems'].append('engine M: native capture scenario %s misbehaves (%s) although end_capture marks its result by the state\'s mode' % (failing[0]['scenario'], failing[0]['detail'][:200]))
+    log('[%s] engine M (captures): %s; %d native scenarios, %d misbehaving' % (prop, ' '.join('%s=%s' % (r['op'], r['verdict']) for r in results), len(scen), len(failing)))
+    ev['coverage'] = dict(queries=len(results) + 1, results=results, native_scenarios=len(scen), native_scenarios_failing=len(failing), function='Output::end_capture and its callers', check='capture_mode')
     ev['wall_s'] = round(time.time() - t0, 1)
     return ev
 
